@@ -353,7 +353,6 @@ func (s *socket) MaybeUpgrade(transport transports.Transport) {
 			cleanup()
 			s.Transport().Discard()
 
-
 			s.clearTransport()
 			s.setTransport(transport)
 			s.Emit("upgrade", transport)
@@ -378,6 +377,9 @@ func (s *socket) MaybeUpgrade(transport transports.Transport) {
 
 		if transports.POLLING == s.Transport().Name() && s.Transport().Writable() {
 			socket_log.Debug("writing a noop packet to polling for fast upgrade")
+			// the transport answers every hand-off with one 'drain', and onDrain takes one group
+			// of send callbacks per drain: this hand-off has none of its own
+			s.sentCallbackFn.Push(nil)
 			s.Transport().Send([]*packet.Packet{{Type: packet.NOOP}})
 		}
 	}
